@@ -165,6 +165,44 @@ func c27Random(g *Gen) {
 	g.Emit("verall")
 }
 
+// appends with nothing in between that could hash a node, then Flush IMMEDIATELY, then look
+func c27QuietFlush(g *Gen) {
+	rounds := 1 + g.Intn(4)
+	n := 0
+	for r := 0; r < rounds; r++ {
+		k := g.Pick(1, 1, 2, 3, 4, 5, 7, 8, 1+g.Intn(20))
+		for i := 0; i < k; i++ {
+			last := i == k-1
+			// the last item before the flush is mostly AddData (a leaf nobody hashed yet)
+			if (last && g.Intn(4) != 0) || (!last && g.Intn(2) == 0) {
+				g.Emit("addq %s", hx(g.Bytes(g.Pick(0, 1, 5, 32, 64, g.Intn(40)))))
+			} else {
+				g.Emit("addhq %s", hx(g.Bytes(32)))
+			}
+			n++
+		}
+		g.Emit("flush")
+		switch g.Intn(3) {
+		case 0:
+			g.Emit("verall")
+			g.Emit("recover")
+			g.Emit("verall")
+		case 1:
+			g.Emit("recover")
+			g.Emit("wit %d", n-1)
+			g.Emit("verall")
+		default:
+			g.Emit("tamper %d 0 0", n-1)
+			g.Emit("witall")
+		}
+	}
+	g.Emit("shape")
+	g.Emit("roots")
+	g.Emit("flush")
+	g.Emit("recover")
+	g.Emit("verall")
+}
+
 // hashes of the wrong size: only compared with the model, no property claimed
 func c27Malformed(g *Gen) {
 	n := 1 + g.Intn(20)
@@ -215,6 +253,8 @@ func c27Gen(g *Gen) {
 			}
 		case c%10 == 9:
 			c27Malformed(g)
+		case c%3 == 2:
+			c27QuietFlush(g)
 		default:
 			c27Random(g)
 		}
@@ -355,6 +395,24 @@ func (r *c27Runner) Step(t []string, o *Oracle) (out string) {
 		}
 	}()
 	switch {
+	case (t[0] == "addq" || t[0] == "addhq") && len(t) == 2:
+		// append without the runner touching the accumulator afterwards: no Verify, no root
+		// hash, so nodes keep whatever (un)hashed state the code itself left them in
+		x := unhx(t[1])
+		var w []mta.Witness
+		if t[0] == "addq" {
+			o.Count("add-data-quiet")
+			w = r.a.AddData(x)
+			r.leaves = append(r.leaves, crypto.SHA3Sum256(x))
+		} else {
+			if len(x) != 32 {
+				r.malformed = true
+			}
+			o.Count("add-hash-quiet")
+			w = r.a.AddHash(x)
+			r.leaves = append(r.leaves, x)
+		}
+		return fmt.Sprintf("w %d %s", r.a.Len(), c27Wits(w))
 	case t[0] == "add" && len(t) == 2:
 		d := unhx(t[1])
 		o.Count("add-data")
